@@ -2,10 +2,16 @@
 use std::fmt;
 use std::num::NonZeroUsize;
 use std::panic::{RefUnwindSafe, UnwindSafe};
+#[cfg(not(may_verif))]
 use std::sync::atomic::{AtomicBool, AtomicUsize, Ordering};
+#[cfg(may_verif)]
+use crate::verif::atomic::{AtomicBool, AtomicUsize, Ordering};
 use std::sync::mpsc::{RecvError, SendError, TryRecvError};
 use std::sync::Arc;
+#[cfg(not(may_verif))]
 use std::thread::Thread;
+#[cfg(may_verif)]
+use crate::verif::thread::Thread;
 
 use super::AtomicOption;
 use crate::coroutine_impl::{is_coroutine, run_coroutine, CoroutineImpl, EventSource};
@@ -165,12 +171,18 @@ impl<T> InnerQueue<T> {
                     let park = Park::new(self);
                     yield_with(&park);
                 } else {
+                    #[cfg(not(may_verif))]
                     let blocker = Blocker::new_thread(std::thread::current());
+                    #[cfg(may_verif)]
+                    let blocker = Blocker::new_thread(crate::verif::thread::current());
                     self.wait_co.store(blocker);
                     match self.try_recv() {
                         Err(TryRecvError::Empty) => {
                             // no data, wait for it
+                            #[cfg(not(may_verif))]
                             std::thread::park();
+                            #[cfg(may_verif)]
+                            crate::verif::thread::park();
                         }
                         data => {
                             self.wait_co.clear();
